@@ -16,6 +16,7 @@ if [ "$REPO" != "/repo" ]; then
   H=$(echo "$REPO" | md5sum | cut -c1-10)
   WORK="$ROOT/.work/alt-$H"
   BIN="$WORK/bin"
+  export VERIF_OUT="$WORK"
 fi
 mkdir -p "$WORK" "$BIN" "$ROOT/bin"
 
